@@ -51,6 +51,7 @@ def run(prop, tier, replay):
             "replies are placed clearly before Result() is called, while it waits (well inside the 80 ms timeout) or after it has returned; the outcome of a reply racing the deadline itself is not decided",
             "one responder actor; requests issued from one goroutine; a timeout is reported as such only if at least the timeout has elapsed since Result() was called",
         ]
+        unrepro = []
         for tag, params in PLAN[tier]:
             r, cases = fam_wire.tlc_cases(sc, "ReqResp.tla", cfg(*params[:3], zero=params[3] if len(params) > 3 else 99), tag)
             v.add_tlc(r, tag)
@@ -85,7 +86,10 @@ def run(prop, tier, replay):
                         ok = True
                         break
                 if not ok:
-                    raise vlib.Broken("request/response failure did not reproduce: " + f["what"])
+                    # (a failure that comes and goes: the free-running parts below may pin it down; if they do not, the
+                    # check ends as broken, not as a verdict)
+                    unrepro.append(f["what"])
+                    continue
                 v.violation(rf, "%s [%s case %d: %s]" % (f["what"][:300], tag, f["index"], " ".join("%s(%d)" % (o["op"], o["r"]) for o in f["case"]["hist"])))
             if v.violations:
                 break
@@ -120,6 +124,8 @@ def run(prop, tier, replay):
                     # response ids are random 31-bit numbers: a collision between two outstanding requests is possible
                     # (about 1e-4 per run of this size) and outside the property; a failure that never shows again is noted
                     cov["concurrent_requests_unreproduced"] = rep["what"]
+        if unrepro and not v.violations:
+            raise vlib.Broken("request/response failure did not reproduce: " + unrepro[0])
         reg = {}
         for name, kw, want in (("FixedPid", dict(fixed=True), {"C11_Correlated", "C11_Unregistered", "C11_LateIsDead"}),
                                ("UnregOnTimeoutOnly", dict(unreg=True), {"C11_Unregistered"})):
